@@ -1,8 +1,10 @@
 import CryoCat.Drv.Proto
 import CryoCat.Model.C03
-/-! C03 driver: runs `Model/C03` at `Float`. The implementation's own angles are passed in as the value of
-the `asEuler` parameter (scipy's answer), so the driver reports (i) the matrix the theorems predict,
-(ii) the matrix scipy was given and the matrix its answer stands for (post-condition of the theorems). -/
+/-! C03 driver: runs `Model/C03` at `Float` with the driver's OWN Euler-angle extractors as the value of the
+`asEuler` parameter (so the model's angles do not depend on the implementation's output and can disagree with it).
+Reported: (i) the pose and matrices the model computes, (ii) the matrix handed to the extractor and the matrix the
+own extractor's answer stands for (`own_post`: the theorems' hypothesis, for the model run), (iii) the same
+post-condition for scipy's answer as reconstructed from the implementation's output angles (`post`). -/
 namespace CryoCat.Drv.C03
 open Lean CryoCat CryoCat.C03
 
@@ -30,13 +32,43 @@ def matJson (m : M3 Float) : Json := Json.arr (m.toList.map fl).toArray
 def optNat (o : Option Nat) : Json := match o with | some n => (n : Json) | none => Json.null
 def optStr (o : Option (List Char)) : Json := match o with | some s => Json.str (String.ofList s) | none => Json.null
 
-/-- undo `applySlots`: the triple scipy must have returned for the implementation to output `o` -/
-def unSlots (slots : List (String × Bool × Nat)) (o : Ang3 Float) : Ang3 Float :=
-  let items : List (Nat × Ang Float) := match slots with
-    | [(_, n0, k0), (_, n1, k1), (_, n2, k2)] => [(k0, o.a.signed n0), (k1, o.b.signed n1), (k2, o.c.signed n2)]
-    | _ => []
-  let get := fun (k : Nat) (d : Ang Float) => (items.lookup k).getD d
-  ⟨get 0 o.a, get 1 o.b, get 2 o.c⟩
+/-- undo `applySlots`: the triple scipy must have returned for the implementation to output `o`;
+`none` unless the three columns come from the three distinct slots 0, 1, 2 -/
+def unSlots (slots : List (String × Bool × Nat)) (o : Ang3 Float) : Option (Ang3 Float) :=
+  match slots with
+  | [(_, n0, k0), (_, n1, k1), (_, n2, k2)] =>
+    let items : List (Nat × Ang Float) := [(k0, o.a.signed n0), (k1, o.b.signed n1), (k2, o.c.signed n2)]
+    match items.lookup 0, items.lookup 1, items.lookup 2 with
+    | some a, some b, some c => some ⟨a, b, c⟩
+    | _, _, _ => none
+  | _ => none
+
+/-! ### the driver's own Euler-angle extractors (no scipy, no implementation output): the value of the `asEuler`
+parameter the model runs with. Outer angle and middle angle from the third column, the remaining angle from what
+is left after removing them (consistent also at and near gimbal lock). Each returns (cos, sin) pairs. -/
+
+def norm2 (x y : Float) : Float := Float.sqrt (x * x + y * y)
+def unitAng (c s : Float) : Ang Float := let n := norm2 c s; if n == 0.0 then ⟨1.0, 0.0⟩ else ⟨c / n, s / n⟩
+
+/-- intrinsic "ZYZ": `m = Rz(a)·Ry(b)·Rz(c)`, third column `(cos a sin b, sin a sin b, cos b)` -/
+def extractZYZ (m : M3 Float) : Ang3 Float :=
+  let sb := norm2 m.a13 m.a23
+  let a := unitAng m.a13 m.a23
+  let b := unitAng m.a33 sb
+  let n := ry b.c (-b.s) * (rz a.c (-a.s) * m)
+  ⟨a, b, unitAng n.a11 n.a21⟩
+
+/-- extrinsic "zxz" of (p, t, s): `m = Rz(s)·Rx(t)·Rz(p)`, third column `(sin s sin t, −cos s sin t, cos t)` -/
+def extractzxz (m : M3 Float) : Ang3 Float :=
+  let st := norm2 m.a13 m.a23
+  let s := unitAng (-m.a23) m.a13
+  let t := unitAng m.a33 st
+  let n := rx t.c (-t.s) * (rz s.c (-s.s) * m)
+  ⟨unitAng n.a11 n.a21, t, s⟩
+
+/-- the extractor for the sequence the source hands to `as_euler`; `none` for any other sequence -/
+def ownExtractor (seq : List Char) : Option (M3 Float → Ang3 Float) :=
+  if seq = ['Z', 'Y', 'Z'] then some extractZYZ else if seq = ['z', 'x', 'z'] then some extractzxz else none
 
 def namesJson (v : Nat) : Json :=
   match versionNames v with
@@ -44,41 +76,57 @@ def namesJson (v : Nat) : Json :=
       ("shifts", Json.arr (n.shifts.map Json.str).toArray), ("spec", Json.str n.spec)]
   | none => Json.null
 
+def optMat (o : Option (M3 Float)) : Json := match o with | some m => matJson m | none => Json.null
+def optBool (o : Option Bool) : Json := match o with | some b => Json.bool b | none => Json.null
+
 def exportRow (tomoFmt subFmt : List Char) (p : List Float) (ids : List Nat) (out : List Float) : Option Json :=
-  match p, ids, out with
-  | [x, y, z, sx, sy, sz, phi, theta, psi], [tomo, sub, cls], [o1, o2, o3] =>
+  match p, ids, out, ownExtractor Gen.C03.exportToSeq with
+  | [x, y, z, sx, sy, sz, phi, theta, psi], [tomo, sub, cls], [o1, o2, o3], some own =>
     let ang := ang3OfDeg phi theta psi
-    let outAng := ang3OfDeg o1 o2 o3
-    let e := unSlots Gen.C03.exportSlots outAng
-    let r := exportPose (fun _ => e) ⟨x, y, z, sx, sy, sz, ang⟩
-    some (Json.mkObj [
-      ("coord", Json.arr #[fl r.cx, fl r.cy, fl r.cz]),
-      ("origin", Json.arr #[fl r.ox, fl r.oy, fl r.oz]),
-      ("expect", matJson (particleMat ang).transpose),
-      ("fed", matJson (exportFed ang)),
-      ("post", matJson (eulerMat Gen.C03.exportToSeq e)),
-      ("rel", matJson r.rotation),
-      ("tomo_name", optStr (tomoName tomoFmt tomo)),
-      ("sub_name", optStr (subName subFmt tomo sub)),
-      ("halfset", (halfsetOf sub : Json)),
-      ("cls", (cls : Json))])
-  | _, _, _ => none
+    -- the model, run with the driver's own extractor
+    match exportPose own ⟨x, y, z, sx, sy, sz, ang⟩, exportFed ang, exportIdent tomoFmt subFmt tomo sub cls with
+    | some r, some fed, ident =>
+      -- scipy's post-condition, on the triple the implementation must have received from scipy
+      let post := (unSlots Gen.C03.exportSlots (ang3OfDeg o1 o2 o3)).bind (eulerMat Gen.C03.exportToSeq)
+      some (Json.mkObj [
+        ("coord", Json.arr #[fl r.cx, fl r.cy, fl r.cz]),
+        ("origin", Json.arr #[fl r.ox, fl r.oy, fl r.oz]),
+        ("expect", matJson (particleMat ang).transpose),
+        ("fed", matJson fed),
+        ("post", optMat post),
+        ("own_post", optMat (eulerMat Gen.C03.exportToSeq (own fed))),
+        ("rel", matJson r.rotation),
+        ("tomo_name", match ident with | some (i, _) => optStr i.tomoName | none => Json.null),
+        ("sub_name", match ident with | some (i, _) => Json.str (String.ofList i.subName) | none => Json.null),
+        ("halfset", match ident with | some (_, h) => (h : Json) | none => Json.null),
+        ("cls", match ident with | some (i, _) => (i.cls : Json) | none => Json.null)])
+    | _, _, _ => none
+  | _, _, _, _ => none
 
 def importRow (v : Nat) (r : List Float) (px : Float) (out : List Float) : Option Json :=
-  match r, out with
-  | [cx, cy, cz, ox, oy, oz, rot, tilt, psi], [o1, o2, o3] =>
+  match r, out, ownExtractor Gen.C03.importToSeq with
+  | [cx, cy, cz, ox, oy, oz, rot, tilt, psi], [o1, o2, o3], some own =>
     let rln := ang3OfDeg rot tilt psi
-    let outAng := ang3OfDeg o1 o2 o3
-    let e := unSlots Gen.C03.importSlots outAng
-    let p := importPose (fun _ => e) v px ⟨cx, cy, cz, ox, oy, oz, rln⟩
-    some (Json.mkObj [
-      ("xyz", Json.arr #[fl p.x, fl p.y, fl p.z]),
-      ("shift", Json.arr #[fl p.sx, fl p.sy, fl p.sz]),
-      ("expect", matJson (relionMat rln).transpose),
-      ("fed", matJson (importFed rln)),
-      ("post", matJson (eulerMat Gen.C03.importToSeq e)),
-      ("rot", matJson p.rotation)])
-  | _, _ => none
+    match importPose own v px ⟨cx, cy, cz, ox, oy, oz, rln⟩, importFed rln with
+    | some p, some fed =>
+      let post := (unSlots Gen.C03.importSlots (ang3OfDeg o1 o2 o3)).bind (eulerMat Gen.C03.importToSeq)
+      some (Json.mkObj [
+        ("xyz", Json.arr #[fl p.x, fl p.y, fl p.z]),
+        ("shift", Json.arr #[fl p.sx, fl p.sy, fl p.sz]),
+        ("expect", matJson (relionMat rln).transpose),
+        ("fed", matJson fed),
+        ("post", optMat post),
+        ("own_post", optMat (eulerMat Gen.C03.importToSeq (own fed))),
+        ("rot", matJson p.rotation)])
+    | _, _ => none
+  | _, _, _ => none
+
+def natCol (l : List Nat) : Json := Json.arr (l.map (fun (n : Nat) => (n : Json))).toArray
+
+def optStrArr? (j : Json) : Option (List (Option String)) :=
+  match j with
+  | Json.arr a => a.toList.mapM (fun c => match c with | Json.str s => some (some s) | Json.null => some none | _ => none)
+  | _ => none
 
 def handle (j : Json) : Json :=
   match getStr? j "op", getNat? j "ver" with
@@ -87,27 +135,27 @@ def handle (j : Json) : Json :=
     | some tf, some sf, some parts, some ids, some outs =>
       if parts.length ≠ ids.length ∨ parts.length ≠ outs.length then err "bad-args" else
       match (parts.zip (ids.zip outs)).mapM (fun (p, i, o) => exportRow tf.toList sf.toList p i o) with
-      | some rows => Json.mkObj [("names", namesJson v), ("angstrom", Json.bool (originInAngstrom v)), ("rows", Json.arr rows.toArray)]
-      | none => err "bad-args"
+      | some rows => Json.mkObj [("names", namesJson v), ("angstrom", optBool (originInAngstrom v)), ("rows", Json.arr rows.toArray)]
+      | none => err "model-fails"
     | _, _, _, _, _ => err "bad-args"
   | some "import", some v =>
     match rows? j "rows" bitsArr?, (j.getObjVal? "px").toOption >>= bitsArr?, rows? j "out" bitsArr?,
-          (j.getObjVal? "tomo_names").toOption >>= strArr?, (j.getObjVal? "sub_names").toOption >>= strArr? with
-    | some rs, some pxs, some outs, some tn, some sn =>
-      if rs.length ≠ pxs.length ∨ rs.length ≠ outs.length then err "bad-args" else
+          (j.getObjVal? "tomo_names").toOption >>= optStrArr?, (j.getObjVal? "sub_names").toOption >>= strArr?,
+          (j.getObjVal? "cls").toOption >>= natArr? with
+    | some rs, some pxs, some outs, some tn, some sn, some cl =>
+      if rs.length ≠ pxs.length ∨ rs.length ≠ outs.length ∨ rs.length ≠ tn.length ∨ rs.length ≠ sn.length ∨ rs.length ≠ cl.length then err "bad-args" else
       match (rs.zip (pxs.zip outs)).mapM (fun (r, px, o) => importRow v r px o) with
       | some rows =>
         let halfsets : Option (List Nat) := (j.getObjVal? "halfsets").toOption >>= natArr?
-        let parsedSub := sn.map (fun s => parseSub v s.toList)
-        let subIds : Json := match parsedSub.mapM id with
-          | some ps => Json.arr ((importSubtomoIds ps halfsets).map (fun (n : Nat) => (n : Json))).toArray
-          | none => Json.null
-        Json.mkObj [("names", namesJson v), ("angstrom", Json.bool (originInAngstrom v)), ("rows", Json.arr rows.toArray),
-          ("tomo", Json.arr (tn.map (fun s => optNat (parseTomo s.toList))).toArray),
-          ("geom3", Json.arr (parsedSub.map optNat).toArray),
-          ("subtomo", subIds)]
-      | none => err "bad-args"
-    | _, _, _, _, _ => err "bad-args"
+        let idents : List RIdent := (tn.zip (sn.zip cl)).map fun (t, s, c) => ⟨t.map String.toList, s.toList, c⟩
+        let cols : List String := ((j.getObjVal? "cols").toOption >>= strArr?).getD []
+        let base := [("names", namesJson v), ("angstrom", optBool (originInAngstrom v)), ("rows", Json.arr rows.toArray),
+          ("sniff", (sniffVersion cols : Json))]
+        match importIdents v idents halfsets with
+        | some c => Json.mkObj (base ++ [("tomo", natCol c.tomo), ("geom3", natCol c.geom3), ("subtomo", natCol c.sub), ("cls", natCol c.cls)])
+        | none => Json.mkObj (base ++ [("tomo", Json.null), ("geom3", Json.null), ("subtomo", Json.null), ("cls", Json.null)])
+      | none => err "model-fails"
+    | _, _, _, _, _, _ => err "bad-args"
   | _, _ => err "bad-op"
 
 end CryoCat.Drv.C03
